@@ -99,6 +99,41 @@ def check(case):
     return {"nontrivial": nt, "classes": cl}
 
 
+def check_long(case):
+    """alignments of thousands of pairs that share one or a few pairs: identity is tiny but positive.  Lists of this
+    length are in difflib's autojunk regime, which is asymmetric by design, so only the clauses that do not depend on
+    the two directions agreeing are asserted: the key partition and the bounds"""
+    from src.diagnostic.alignment_comparer import AlignmentComparer, AlignmentRowComparer
+    A, B = case["a"], case["b"]
+    comparer = AlignmentComparer(AlignmentRowComparer(case["combine"]))
+    ab = sut(comparer.compare, build(A), build(B))
+    ka, kb = keys(A), keys(B)
+    req(ab.overlapping + ab.nonOverlapping + ab.firstOnly + ab.secondOnly == len(ka | kb), "keys-not-partitioned",
+        f"overlapping {ab.overlapping} + nonOverlapping {ab.nonOverlapping} + firstOnly {ab.firstOnly} + secondOnly {ab.secondOnly} != {len(ka | kb)} distinct keys")
+    req(ab.firstOnly == len(ka - kb) and ab.secondOnly == len(kb - ka), "first-only-count", "only-counts differ from the set differences")
+    for r in ab.rows:
+        for name in ("identity", "alignment1Coverage", "alignment2Coverage"):
+            req(0 <= getattr(r, name) <= 1, "measure-out-of-range", f"key {(r.queryId, r.referenceId)}: {name} = {getattr(r, name)}")
+    return {"nontrivial": True, "classes": ["long"]}
+
+
+@st.composite
+def long_case(draw):
+    n = draw(st.sampled_from([2100, 2600, 4200]))
+    shared = draw(st.integers(1, 3))
+    a = [[i + 1, i + 1] for i in range(n)]
+    b = [[i + 1, i + 1] for i in range(shared)] + [[10 ** 5 + i, 10 ** 5 + i] for i in range(n - shared)]
+    A = [{"q": 1, "r": 1, "pairs": a}]
+    B = [{"q": 1, "r": 1, "pairs": b}]
+    if draw(st.booleans()):
+        A.append({"q": 2, "r": 1, "pairs": [[1, 1], [2, 2]]})
+    if draw(st.booleans()):
+        B.append({"q": 3, "r": 2, "pairs": [[5, 5]]})
+    if draw(st.booleans()):
+        A, B = B, A
+    return {"a": A, "b": B, "combine": draw(st.booleans())}
+
+
 def reflexive(res, T, what):
     req(res.firstOnly == 0 and res.secondOnly == 0, "self-comparison-has-exclusive-keys", f"{what}: firstOnly {res.firstOnly}, secondOnly {res.secondOnly}")
     for r in res.rows:
@@ -290,6 +325,8 @@ def subchecks(tier):
     q = tier == "quick"
     subs = [Sub("laws", "hyp", check, strategy=strategy, examples=24000 if q else 600000, shrink_budget=800,
                 required_classes=("duplicated-query-label", "key-twice-in-one-set", "empty-alignment", "combine", "repeated-identical-pair"))]
+    subs.append(Sub("long-lists", "hyp", check_long, strategy=long_case, examples=32 if q else 600, shrink_budget=6,
+                    describe="alignments of 2100-4200 pairs sharing 1-3 pairs (identity below 0.0005): partition and bounds only"))
     subs.append(Sub("program", "hyp", check_program, strategy=program_case, examples=1600 if q else 40000, shrink_budget=200,
                     describe="the compare_alignments program on generated simulation-data (SDATA) and XMAP files: a file against itself, two files in both orders",
                     required_classes=("sdata", "xmap", "reverse")))
